@@ -432,6 +432,8 @@ def iter_count(eng, st, site, func, target, args, dty):
     from stubs2 import classify_pred
     it = args[0]
     us = eng.usize_ty()
+    if isinstance(it, VIter) and it.kind == "chars":
+        return chars_count(eng, st, site, func, target, args, dty)
     if isinstance(it, VIter) and it.kind == "filter" and isinstance(it.src, VIter) and it.src.kind in ("slice", "vec"):
         inner = it.src
         if inner.kind == "slice":
@@ -652,3 +654,96 @@ def int_wrapping_neg(eng, st, site, func, target, args, dty):
     if eng.add(st, c_le(Lin.const(1), x.lin)):
         out.append((st, VInt(x.ty, Lin.const(1 << w) - x.lin)))
     return out
+
+
+# ------------------------------------------------------------------ strings
+
+@stub(r"^<[ui](8|16|32|64|128|size) as std::string::ToString>::to_string$|^<T as std::string::ToString>::to_string$")
+def int_to_string(eng, st, site, func, target, args, dty):
+    """decimal rendering of an integer: a non-empty String of at most 40 octets, content not tracked"""
+    v = args[0]
+    if isinstance(v, VRef):
+        v = eng.load(st, v.cell, v.path)
+    if not isinstance(v, VInt):
+        return None
+    n = eng.new_int(eng.usize_ty(), "digits", 1, 40)
+    return [(st, new_vec(eng, st, n.lin, (((n.lin, ("fmt", repr(v.lin)))),), None, None, eng.u8_ty()))]
+
+
+@stub(r"^core::str::<impl str>::(strip_suffix|strip_prefix)$")
+def str_strip(eng, st, site, func, target, args, dty):
+    """Some(shorter str) or None; the pattern's length is known only for literal patterns"""
+    s = as_slice(eng, st, args[0])
+    if s is None:
+        return None
+    pat = args[1]
+    k = None
+    ps = as_slice(eng, st, pat) if not isinstance(pat, VInt) else None
+    if ps is not None and ps.len.is_const():
+        k = ps.len.c
+    elif isinstance(pat, VInt):
+        k = 1                      # a char pattern: at least one octet (ASCII: exactly one)
+    out = []
+    s1 = st.fork()
+    cut = Lin.const(k) if k is not None else eng.new_int(eng.usize_ty(), "patlen", 1).lin
+    if eng.add(s1, c_le(cut, s.len)):
+        if target["name"].endswith("strip_suffix"):
+            sub = VSlice(s.base, s.start, s.len - cut, s.elem, s.is_str, s.mut)
+        else:
+            sub = VSlice(s.base, s.start + cut, s.len - cut, s.elem, s.is_str, s.mut)
+        out.append((s1, mk_option(eng, dty, True, sub)))
+    out.append((st, mk_option(eng, dty, False)))
+    return out
+
+
+@stub(r"^core::str::<impl str>::chars$|^core::str::<impl str>::bytes$|^core::str::<impl str>::char_indices$")
+def str_chars(eng, st, site, func, target, args, dty):
+    s = as_slice(eng, st, args[0])
+    if s is None:
+        return None
+    return [(st, VIter("chars" if not target["name"].endswith("bytes") else "slice", s.len if target["name"].endswith("bytes") else None,
+                       Lin.const(0) if target["name"].endswith("bytes") else 0, s, None))]
+
+
+@stub(r"<std::str::Chars<'a> as std::iter::Iterator>::count$")
+def chars_count(eng, st, site, func, target, args, dty):
+    """number of chars of a str: between ceil(len/4) and len; equal to len only for ASCII"""
+    it = args[0]
+    if not (isinstance(it, VIter) and it.kind == "chars" and isinstance(it.src, VSlice)):
+        return None
+    ln = it.src.len
+    n = eng.new_int(eng.usize_ty(), "nchars", 0)
+    st.cons.append(c_le(n.lin, ln))
+    st.cons.append(c_le(ln, n.lin.scale(4)))
+    return [(st, n)]
+
+
+@stub(r"^std::iter::Iterator::partition$|std::iter::Iterator>::partition$")
+def iter_partition(eng, st, site, func, target, args, dty):
+    """(kept, rest): two vectors whose lengths add up to the number of items; which item went where is not tracked"""
+    it = args[0]
+    total = None
+    if isinstance(it, VIter) and isinstance(it.pos, Lin) and it.kind in ("slice", "vec"):
+        if it.kind == "slice":
+            total = it.src.len - it.pos
+        else:
+            vv = st.cells.get(it.src)
+            total = (vv.len - it.pos) if isinstance(vv, VVec) else None
+    if total is None:
+        return None
+    probe = st.fork()
+    eng.call_closure(probe, site, args[1], [VUnknown(None, eng.fresh("pitem"))])
+    a = eng.new_int(eng.usize_ty(), "part_a", 0)
+    b = eng.new_int(eng.usize_ty(), "part_b", 0)
+    st.cons.append(c_eq(a.lin + b.lin, total))
+    ety = None
+    if dty is not None:
+        tt = eng.T(dty)
+        if tt["k"] == "tuple" and tt["of"]:
+            vt = eng.T(tt["of"][0])
+            if vt["k"] == "adt" and vt.get("args") and isinstance(vt["args"][0], int):
+                ety = vt["args"][0]
+    va = new_vec(eng, st, a.lin, None, None, None, ety)
+    vb = new_vec(eng, st, b.lin, None, None, None, ety)
+    st.emit(("partition", it.src if it.kind == "vec" else it.src.base, va.cell, vb.cell, site_info(site)))
+    return [(st, VAdt(dty, Lin.const(0), {0: (va, vb)}))]
